@@ -1,4 +1,5 @@
 //! Per-property workloads and verdict logic.
+pub mod hist;
 pub mod sched;
 
 use crate::ap::{Project, Rel};
@@ -36,6 +37,7 @@ pub fn case_loop(ctx: &Ctx, rep: &mut Report, mut f: impl FnMut(u64, u64, &mut R
 pub fn run_sim(ctx: &Ctx, rep: &mut Report) {
     match ctx.prop.as_str() {
         "C01" | "C04" | "C05" | "C06" | "C18" | "C19" => sched::run(ctx, rep),
+        "C02" | "C03" | "C07" | "C08" | "C09" | "C17" => hist::run(ctx, rep),
         p => {
             rep.inconclusive.push(format!("no sim workload for {}", p));
         }
@@ -107,6 +109,12 @@ pub fn predict_inv(world: &World, inv: &Inv) -> PredInv {
             }
         }
         known.insert(mf.clone());
+        // names remembered in the log are accepted by n2 as (do-nothing) targets; see DESIGN.md O2
+        if let Ok(bytes) = std::fs::read(world.db_path()) {
+            for n in crate::dbfmt::path_names(&crate::dbfmt::parse_db(&bytes)) {
+                known.insert(n);
+            }
+        }
         let _ = r;
         for t in &inv.targets {
             let c = crate::ap::canon_ref(t);
